@@ -119,9 +119,14 @@ let parse_ev s =
    showed?  Outputs of the concurrent operations themselves are not constrained (the
    property speaks of the quiescent state).  Read-only operations are dropped. *)
 let read_only = function Fetch _ | Exists _ | Resolve _ | Preds _ | Tags -> true | _ -> false
-let serialisable (type s) (step : s -> op -> s * string) (init : s) (repr : s -> string)
+(* [constrained o]: the observed output of this concurrent operation must be the one the
+   sequential model gives at its place in the order (operations whose result is decided at
+   one atomic step: everything but Predecessors on the memory store, Push on the file
+   store).  Unconstrained read-only operations are dropped from the search. *)
+let serialisable (type s) ?(constrained : op -> bool = fun _ -> false)
+    (step : s -> op -> s * string) (init : s) (repr : s -> string)
     (evs : ev array) (probe : ev list) : bool =
-  let evs = Array.of_list (List.filter (fun e -> not (read_only e.o)) (Array.to_list evs)) in
+  let evs = Array.of_list (List.filter (fun e -> constrained e.o || not (read_only e.o)) (Array.to_list evs)) in
   let n = Array.length evs in
   let donev = Array.make n false in
   let seen = Hashtbl.create 1024 in
@@ -144,10 +149,12 @@ let serialisable (type s) (step : s -> op -> s * string) (init : s) (repr : s ->
         while not !ok && !i < n do
           let e = evs.(!i) in
           if not donev.(!i) && e.inv <= !minresp then begin
-            let (st', _) = step st e.o in
-            donev.(!i) <- true;
-            if go st' (k + 1) then ok := true;
-            donev.(!i) <- false
+            let (st', shown) = step st e.o in
+            if not (constrained e.o) || shown = e.obs then begin
+              donev.(!i) <- true;
+              if go st' (k + 1) then ok := true;
+              donev.(!i) <- false
+            end
           end;
           incr i
         done;
@@ -184,7 +191,7 @@ let () =
          let evs = Array.of_list conc in
          let ok =
            if is_file store then
-             serialisable (fun s o -> let (s', x) = file_stepper store s o in (s', show_fout x)) file_init
+             serialisable ~constrained:(function Push _ -> true | _ -> false) (fun s o -> let (s', x) = file_stepper store s o in (s', show_fout x)) file_init
                (fun s -> String.concat "," (List.map (fun n -> string_of_int (ii n)) (List.sort compare s.f_names)) ^ "#" ^
                          String.concat "," (List.sort compare (List.map (fun (g, p) -> Printf.sprintf "%d>%d" (ii g) (ii p)) s.f_d2p)) ^ "#" ^
                          show_content_mem s.f_cas ^ "#" ^ show_tags s.f_res.r_index ^ "#" ^ show_graph s.f_graph ^ "#" ^
@@ -192,7 +199,8 @@ let () =
            else
            match store with
            | "mem" ->
-             serialisable (fun s o -> let (s', x) = mem_step s o in (s', show_out x)) mem_init
+             serialisable ~constrained:(function Preds _ -> false | _ -> true)
+               (fun s o -> let (s', x) = mem_step s o in (s', show_out x)) mem_init
                (fun s -> let a = mem_abs s in show_content_mem a.sp_content ^ "#" ^ show_tags a.sp_tags ^ "#" ^ show_graph s.m_graph) evs probe
            | "oci" ->
              serialisable (fun s o -> let (s', x) = oci_step s o in (s', show_out x)) oci_init
